@@ -194,6 +194,15 @@ def sameMembers (a b : List Nat) : Bool :=
 def allBlockedB (c : Cfg) (started done : List Nat) : Bool :=
   (List.range c.n).all (fun v => decide (v ∈ started) || (parents c.D v).any (fun p => decide (p ∉ done)))
 
+/-- a panic / livelock read against the clauses of other properties that promise a return -/
+def noReturnNotes (c : Cfg) (m : PredSt) (wh : String) : List Note :=
+  (if m.intrAt.isNone && m.realFailed.isEmpty then [.prop "C03" (wh ++ " clean run never returns") false] else [])
+  ++ (if !m.realFailed.isEmpty then [.prop "C07" (wh ++ " never returns after a failure") false] else [])
+  ++ (if m.intrAt.isSome then [.prop "C08" (wh ++ " never returns after the interrupt") false] else [])
+  ++ (match c.limit with
+      | some (l+1) => if m.intrAt.isNone && !c.sequential then [.prop "C10" (wh ++ s!" limit {l+1} blocks completion") false] else []
+      | _ => [])
+
 def predFut (x : MonCtx) (m : PredSt) (e : Ev) : PredSt × List Note :=
   let c := x.c
   let wh := e.text
@@ -219,6 +228,10 @@ def predFut (x : MonCtx) (m : PredSt) (e : Ev) : PredSt × List Note :=
       .prop "C01" (wh ++ " (built-graph predecessors)") ((parents c.D f).all (fun p => decide (p ∈ m.realEndedOk))),
       -- C07: nothing ordered after a failed function starts
       .prop "C07" wh (m.realFailed.all (fun y => !reachPlus c.D y f)),
+      -- C07 read on the declarations alone (C11 orders every conflicting pair): nothing that conflicts
+      -- with a failed function starts after the failure
+      .prop "C07" (wh ++ " (conflicts with a failed function)")
+        (m.realFailed.all (fun y => y == f || !conflict (declOf x.decls y) (declOf x.decls f))),
       .prop "C10" wh (match lim with | some l => decide (nInfl ≤ l) | none => true)]
      ++ (match m.intrAt, boundOf c.strat c.incl m.intrPre with
          | some k, some b =>
@@ -245,7 +258,15 @@ def predFut (x : MonCtx) (m : PredSt) (e : Ev) : PredSt × List Note :=
          | _ => [])
      -- C06 (real): no limit / interrupt / failure: every function whose built-graph predecessors
      -- have all returned has been started
-     ++ (if cleanRun && unlimited then [.prop "C06" wh (allBlockedB c m.realInvoked m.realEndedOk)] else []))
+     ++ (if cleanRun && unlimited then [.prop "C06" wh (allBlockedB c m.realInvoked m.realEndedOk)] else [])
+     -- C10 (real): a limit is work-conserving: idle below the limit, every ready function was started
+     -- (otherwise a completion order in which a running function outlasts a ready one cannot happen)
+     ++ (match c.limit with
+         | some (l+1) =>
+           if cleanRun && !c.sequential && decide (m.realInflight.length < l+1) then
+             [.prop "C10" (wh ++ s!" idle below limit {l+1} with a ready function unstarted")
+               (allBlockedB c m.realInvoked m.realEndedOk)] else []
+         | _ => []))
   | .retErr f =>
     (m1, [.prop "C04" (wh ++ " inflight-at-return") m.realInflight.isEmpty,
           -- C07: try_fold returns the first error and invokes nothing after it
@@ -266,8 +287,8 @@ def predFut (x : MonCtx) (m : PredSt) (e : Ev) : PredSt × List Note :=
      ++ (match c.strat with
          | .non | .ignore => if m.realFailed.isEmpty then [.prop "C08" (wh ++ " noop") (isPermOfRange m.realInvoked c.n)] else []
          | _ => []))
-  | .panic => (m1, [.prop "C04" wh false])
-  | .livelock => (m1, [.prop "C04" wh false])
+  | .panic => (m1, [.prop "C04" wh false] ++ noReturnNotes c m wh)
+  | .livelock => (m1, [.prop "C04" wh false] ++ noReturnNotes c m wh)
   | _ => (m1, [])
 
 /-! ### streams -/
@@ -366,8 +387,16 @@ def predStream (x : MonCtx) (budgetYield : Bool) (m : SPredSt) (e : Ev) : SPredS
                         wokenSincePoll := m.wokenSincePoll || woken }
     -- C05: after a Pending poll, as soon as some unyielded function has all predecessors dropped a
     -- wake-up must have been signalled
+    -- C03 / C06 (stream forms): the same condition seen as "a clean stream parked for good" and
+    -- "idle with a released function not started"
     (m2, if m2.lastPending && !m.streamDropped then
            [.prop "C05" (wh ++ " wake-after-drop") (m2.wokenSincePoll || allBlockedB c m2.yielded m2.droppedRefs)]
+           ++ (if m.yieldedAtIntr.isSome then [] else
+                 [.prop "C03" (wh ++ " clean stream parked for good")
+                   (m2.wokenSincePoll || allBlockedB c m2.yielded m2.droppedRefs)])
+           ++ (if x.interruptible then [] else
+                 [.prop "C06" (wh ++ " idle with a released function unstarted")
+                   (m2.wokenSincePoll || allBlockedB c m2.yielded m2.droppedRefs)])
          else [])
   | .panic => (m1, [.prop "C05" wh false])
   | .aborted => ({ m1 with streamDropped := true }, [])
